@@ -124,8 +124,83 @@ def trace(fn, args, kwargs=None):
 
 
 def run(ctx, fn, *args, **kwargs):
-    tr, dyn = trace(fn, args, kwargs)
+    try:
+        tr, dyn = trace(fn, args, kwargs)
+    except jax.errors.TracerBoolConversionError:
+        # Python-level control flow on a traced value (`if`, `max`, `assert` ... on a symbolic input): explore every path and merge the results under their
+        # path conditions (If-trees); the accepted-path condition is recorded in ctx.fork_accepting for contracts that need it.
+        return run_forked(ctx, fn, args, kwargs)
     return eval_traced(ctx, tr, dyn)
+
+
+def run_forked(ctx, fn, args, kwargs=None, max_paths=32):
+    import z3
+    paths = fork_paths(fn, args, kwargs, max_paths=max_paths)
+    evald = []
+    n0 = len(ctx.calls)
+    for tr, dyn, decisions in paths:
+        conds, out = eval_traced(ctx, tr, dyn)
+        pc = ir.sand(*[ir.seq(c.scalar(), d) for c, d in zip(conds, decisions)])
+        evald.append((pc, out))
+    # the same collaborator call issued on several paths (identical name, batching and operand terms) is ONE call of the program: keep the first record
+    seen, kept = set(), []
+    for c in ctx.calls[n0:]:
+        sig = _call_signature(c)
+        if sig is not None and sig in seen:
+            continue
+        seen.add(sig)
+        kept.append(c)
+    ctx.calls[n0:] = kept
+    is_s = lambda x: isinstance(x, ir.SArr)
+    flat = [jax.tree.flatten(o, is_leaf=is_s) for _, o in evald]
+    td0 = flat[0][1]
+    if any(td != td0 for _, td in flat[1:]):
+        raise ir.Unsupported("paths of Python-level control flow return differently structured results")
+    merged = []
+    for li in range(len(flat[0][0])):
+        leaves = [f[0][li] for f in flat]
+        if not is_s(leaves[0]):
+            if any(is_s(l) or not _same_static(l, leaves[0]) for l in leaves[1:]):
+                raise ir.Unsupported("paths of Python-level control flow return different static values")
+            merged.append(leaves[0])
+            continue
+        if any(not is_s(l) or tuple(l.shape) != tuple(leaves[0].shape) or l.kind != leaves[0].kind for l in leaves[1:]):
+            raise ir.Unsupported("paths of Python-level control flow return differently shaped results")
+
+        def fn_at(idx, leaves=leaves):
+            v = leaves[-1].at(idx)
+            for (pc, _), l in zip(reversed(evald[:-1]), reversed(leaves[:-1])):
+                v = ir.site(pc, l.at(idx), v)
+            return v
+        m = ir.SArr(leaves[0].shape, leaves[0].kind, fn_at, dtype=leaves[0].dtype)
+        merged.append(with_jshape(m, getattr(leaves[0], "jshape", leaves[0].shape), leaves[0].dtype))
+    ctx.__dict__.setdefault("fork_paths_explored", []).append(len(paths))
+    return jax.tree.unflatten(td0, merged)
+
+
+def _call_signature(c):
+    import z3
+    try:
+        ops = []
+        for a in c.operands:
+            if all(isinstance(d, int) for d in a.shape) and int(np.prod(a.shape or (1,))) <= 256:
+                ops.append((tuple(a.shape), tuple(ir.key_of(a.at(ix)) for ix in a.indices())))
+            else:
+                idx = tuple(z3.Int(f"sig!{k}") if not isinstance(d, int) else 0 for k, d in enumerate(a.shape))
+                ops.append((tuple(str(d) for d in a.shape), ir.key_of(a.at(idx))))
+        return (c.name, str(c.levels), str(getattr(c, "path", None)), tuple(ops))
+    except Exception:
+        return None
+
+
+def _same_static(a, b):
+    try:
+        if a is b:
+            return True
+        r = a == b
+        return bool(r) if not hasattr(r, "all") else bool(r.all())
+    except Exception:
+        return False
 
 
 def eval_traced(ctx, tr: Traced, dyn):
